@@ -11,6 +11,8 @@
  *   FCV_KILL   K:before | K:after    _exit(137) just before / after the K-th relevant mutating call
  *   FCV_PAUSE  CLASS:K:FIFO_OUT:FIFO_IN   at the K-th relevant call of CLASS (R|M|O = open for read)
  *              write one byte to FIFO_OUT and block until a byte arrives on FIFO_IN
+ *   FCV_SHORT_READ=N      every read() of a relevant file returns at most N, N+1000 or N+2000 bytes (by call number):
+ *                         legal short reads before EOF, as on FUSE / network file systems or after a signal
  *   FCV_READ_DELAY_US=N   every read() of a relevant file sleeps N microseconds first (the file stays open meanwhile)
  *   FCV_DTYPE_UNKNOWN=1   readdir reports every entry of a relevant directory with d_type = DT_UNKNOWN, as file
  *              systems without the filetype feature do (the caller then has to lstat each entry)
@@ -68,6 +70,7 @@ static unsigned long jitter_seed = 0;
 static int noatime_eperm = 0;
 static int dtype_unknown = 0;
 static long read_delay_us = 0;
+static long short_read = 0;
 static char nolock_dir[4096];
 static long kill_k = -1;
 static int kill_after = 0;
@@ -134,6 +137,8 @@ static void init(void) {
     ficlone_emulate = e && *e == '1';
     const char *rd = getenv("FCV_READ_DELAY_US");
     if (rd && *rd) read_delay_us = atol(rd);
+    const char *sr = getenv("FCV_SHORT_READ");
+    if (sr && *sr) short_read = atol(sr);
     const char *du = getenv("FCV_DTYPE_UNKNOWN");
     dtype_unknown = du && *du == '1';
     const char *nl = getenv("FCV_NOLOCK_DIR");
@@ -550,6 +555,10 @@ ssize_t read(int fd, void *buf, size_t n) {
     if (read_delay_us > 0) {
         struct timespec ts = {read_delay_us / 1000000, (read_delay_us % 1000000) * 1000};
         nanosleep(&ts, NULL);
+    }
+    if (short_read > 0) {
+        size_t cap = (size_t)short_read + (size_t)(s_ % 3) * 1000;
+        if (n > cap) n = cap;
     }
     ssize_t r = real_read(fd, buf, n);
     int e = errno;
